@@ -213,7 +213,17 @@ def getter_check(prop, tier, seed, replay=None):
                     continue
                 step['state'] = proj(st)
                 steps.append(step)
+            # a Close right behind a Send (no pause in which the request goroutine could start) in every other behaviour that has the pair
+            if bi % 2 == 0:
+                for k in range(len(steps) - 1):
+                    if steps[k]['a'] == 'send' and steps[k + 1]['a'] == 'close': steps[k]['nowait'] = True
             scs.append(dict(name='httpchan-%d' % bi, steps=steps))
+        # ... and in directed ones, whatever the simulation happened to draw
+        for di, kinds in enumerate((['call'], ['note'], ['bad'], ['fail'], ['call', 'call'], ['note', 'call'])):
+            steps = [dict(a='send', kind=k, state=None) for k in kinds]
+            steps[-1]['nowait'] = True
+            steps += [dict(a='close', state=None)] + [dict(a='doret', i=len(kinds) - j, state=None) for j in range(len(kinds))] + [dict(a='recv', state=None)]
+            scs.append(dict(name='httpchan-send-close-%d' % di, steps=steps))
         sp = os.path.join(work, 'hscn.ndjson')
         with open(sp, 'w') as f:
             for s in scs: f.write(json.dumps(s) + '\n')
